@@ -58,8 +58,13 @@ class DMonitor:
             return r
 
         def union(types):
-            types = list(types)
-            r = orig_union(types)
+            # the callee receives the kind of iterable the caller passed: a one-shot iterator stays one-shot
+            if iter(types) is types:
+                types = list(types)
+                r = orig_union(iter(types))
+            else:
+                r = orig_union(types)
+                types = list(types)
             if mon.enabled:
                 mon._judge_union(types, r)
             return r
@@ -195,6 +200,40 @@ def walk_attrs(o, seen=None):
 # ------------------------------------------------------------------------------------------
 # T - logical step counter
 # ------------------------------------------------------------------------------------------
+class CpuBudgetExceeded(BaseException):
+    """raised inside the monitored call by the SIGVTALRM handler (BaseException: no `except Exception` in the code
+    under test or in the harness swallows it)"""
+
+
+class CpuBudget:
+    """Bounded-progress monitor: the body may use at most `seconds` of this process's *user CPU time* (ITIMER_VIRTUAL
+    only runs while the process executes, so machine load does not shorten it). C loops of the interpreter that poll
+    for signals (the regular-expression engine does) are interrupted as well."""
+
+    def __init__(self, seconds):
+        self.seconds = seconds
+        self._old = None
+
+    @staticmethod
+    def _fire(signum, frame):
+        raise CpuBudgetExceeded()
+
+    def __enter__(self):
+        import signal
+        self._old = signal.signal(signal.SIGVTALRM, self._fire)
+        signal.setitimer(signal.ITIMER_VIRTUAL, self.seconds)
+        return self
+
+    def __exit__(self, *exc):
+        import signal
+        try:
+            signal.setitimer(signal.ITIMER_VIRTUAL, 0)
+        except CpuBudgetExceeded:  # fired between the end of the body and the cancellation
+            signal.setitimer(signal.ITIMER_VIRTUAL, 0)
+        signal.signal(signal.SIGVTALRM, self._old)
+        return False
+
+
 class StepCounter:
     TOOL = 3
 
